@@ -368,7 +368,7 @@ def _run_wiring(ctx, modname: str, core: str, P: str):
     assoc = ev("sync.associate_trajectories")
     corec = ev(f"{modname}.{core}")
     save = ev("file_interface.save_res_file")
-    ctx.require(len(load) == 1 and len(dof) == 1 and len(crop) == 1 and
+    ctx.require(len(load) == 1 and len(dof) == 1 and len(crop) >= 1 and
                 len(assoc) == 1 and len(corec) == 1 and len(save) == 1,
                 f"{modname}.run: pipeline steps not found (unknown idiom)")
     seq = [("load", load), ("downsample/filter", dof), ("time crop", crop),
@@ -390,15 +390,24 @@ def _run_wiring(ctx, modname: str, core: str, P: str):
            f"run(): downsample_or_filter receives "
            f"{ {k: fmt(v) for k, v in b.items()} }",
            key=f"{_R(P, 5)}:run:dof")
-    b = crop[0].data["bound"] or {}
-    ok = b.get("start_timestamp") is A("t_start") and \
-        b.get("end_timestamp") is A("t_end") and crop[0].data.get("recv") \
-        is ref0
-    ctx.ob(_R(P, 5), crop[0], ok,
-           "run(): reference cropped to [t_start, t_end]" if ok else
-           f"run(): time crop wiring: recv {fmt(crop[0].data.get('recv'))} "
-           f"{ {k: fmt(v) for k, v in b.items()} }",
-           key=f"{_R(P, 5)}:run:crop")
+    for ce in crop:
+        b = ce.data["bound"] or {}
+        on_ref = ce.data.get("recv") is ref0
+        ok = b.get("start_timestamp") is A("t_start") and \
+            b.get("end_timestamp") is A("t_end") and on_ref
+        ctx.ob(_R(P, 5), ce, ok,
+               "run(): the reference is cropped to [t_start, t_end] (given "
+               "in reference time); the estimate is cut by the association"
+               if ok else
+               (f"run(): the time range (reference time) is also applied to "
+                f"{fmt(ce.data.get('recv'))} before the association: "
+                f"estimate poses whose partners lie inside the range (time "
+                f"offset / unequal stamps at the border) are removed, so "
+                f"the stored pairs are not those that remain after "
+                f"association" if not on_ref else
+                f"run(): time crop wiring: "
+                f"{ {k: fmt(v) for k, v in b.items()} }"),
+               key=f"{_R(P, 5)}:run:crop")
     b = assoc[0].data["bound"] or {}
     want = {"traj_1": ref0, "traj_2": est0, "max_diff": A("t_max_diff"),
             "offset_2": A("t_offset")}
